@@ -48,6 +48,76 @@ def strategy(ctx):
     return cases()
 
 
+def split_alternatives(p):
+    """-> [[(separator, step text), ...] per top-level alternative]; separator of the first step is '', '/' or '//'"""
+    alts = [[]]
+    depth = 0
+    quote = None
+    sep = ''
+    cur = ''
+    i = 0
+    started = False
+
+    def flush():
+        nonlocal cur, sep, started
+        if cur.strip() or sep:
+            alts[-1].append((sep, cur.strip()))
+        cur = ''
+        sep = ''
+    while i < len(p):
+        ch = p[i]
+        if quote:
+            cur += ch
+            if ch == quote:
+                quote = None
+        elif ch in '"\'':
+            quote = ch
+            cur += ch
+        elif ch in '[(':
+            depth += 1
+            cur += ch
+        elif ch in '])':
+            depth -= 1
+            cur += ch
+        elif depth == 0 and ch == '|':
+            flush()
+            alts.append([])
+        elif depth == 0 and ch == '/':
+            if cur.strip() or sep:
+                flush()
+            if p[i:i + 2] == '//':
+                sep = '//'
+                i += 1
+            else:
+                sep = '/'
+        else:
+            cur += ch
+        i += 1
+    flush()
+    return alts
+
+
+def dslash_shapes(p):
+    """the three shapes of '//' inside a pattern that open findings are about (mirrors the generator flags of the same names)"""
+    f = set()
+    for alt in split_alternatives(p):
+        if not alt:
+            continue
+        head_sep, head = alt[0]
+        headkind = '/' if head_sep == '/' else '//' if head_sep == '//' else ('id' if re.match(r'(id|key)\s*\(', head) else '')
+        for i in range(1, len(alt)):
+            if alt[i][0] != '//':
+                continue
+            prev = alt[i - 1][1]
+            if re.search(r'(?<![\w-])node\s*\(', re.sub(r'\[.*', '', prev)) and not re.match(r'\s*(@|attribute\s*::)', prev):
+                f.add('node-before-dslash')
+            if headkind == '/':
+                f.add('abs-inner-dslash')
+            if i >= 2 or headkind in ('id', '//'):
+                f.add('multi-before-dslash')
+    return f
+
+
 def pat_features(p):
     f = set()
     if re.search(r'(@|attribute\s*::)', p):
@@ -58,6 +128,7 @@ def pat_features(p):
         f.add('attr-positional')
     if '//' in p:
         f.add('dslash')
+    f |= dslash_shapes(p)
     if re.search(r'\bid\s*\(', p):
         f.add('id')
     if re.search(r'position|last|\[\s*[\d.]', p):
